@@ -318,6 +318,23 @@ ROUND7 = {
 }
 
 
+ROUND8 = {
+    "C01": "No direction bin width from the extent max(dir) - min(dir) of the axis.",
+    "C03": "No partition list rebuilt through a collection keyed by a computed statistic (equal Hs collide).",
+    "C04": "No partition list rebuilt through a collection keyed by a computed statistic (a basin found by the watershed would be dropped).",
+    "C05": "Peak direction taken on the spectrum as stored (shared with C02); the native watershed-line reassignment double-buffers (shared with C04); no width from the axis extent.",
+    "C09": "Band-limit validation tests limits with `is not None`, never by truthiness.",
+    "C10": "No hidden absolute tolerance (np.isclose / allclose without atol=0) on spectrum-derived quantities.",
+    "C11": "Converters map the stored density linearly and unconditionally (no value mask, no metadata guard).",
+    "C12": "Density / coordinate conversions of the model converters are unconditional (presence of variables and arguments aside) and linear.",
+    "C13": "Readers never fold a longitude read from a file modulo 360.",
+    "C14": "The longitude-convention branch of the selectors is chosen from the dataset's longitudes.",
+    "C16": "smooth_spec never casts the spectra to a narrower type.",
+    "C20": "split() slices direction labels only on data sorted in the same function; argument validation never tests numeric limits by truthiness.",
+}
+HYGIENE = "Package-wide hygiene in the property's modules: no result of a non-mutating xarray / pandas method discarded, no `p or <non-zero constant>` defaulting of numeric parameters."
+
+
 def main():
     props = [json.loads(l) for l in open(os.path.join(HERE, "properties.jsonl"))]
     checks, na = [], []
@@ -332,7 +349,7 @@ def main():
                 "evidence_file": f"/verif/evidence/{pid}.json",
                 "replay_cmd_template": f"./vcheck {pid} --explain 0  # replay file: {{path}}",
                 "engine": "vsa",
-                "level_claimed": {"category": c[1], "text": (c[2] + " " + ROUND3.get(pid, "") + (" Round 4: " + ROUND4[pid] if pid in ROUND4 else "") + (" Round 5: " + ROUND5[pid] if pid in ROUND5 else "") + (" Round 7: " + ROUND7[pid] if pid in ROUND7 else "")).strip(), "design_ref": c[5]},
+                "level_claimed": {"category": c[1], "text": (c[2] + " " + ROUND3.get(pid, "") + (" Round 4: " + ROUND4[pid] if pid in ROUND4 else "") + (" Round 5: " + ROUND5[pid] if pid in ROUND5 else "") + (" Round 7: " + ROUND7[pid] if pid in ROUND7 else "") + (" Round 8: " + ROUND8[pid] if pid in ROUND8 else "") + (" " + HYGIENE if pid not in ("C07", "C17", "C18", "C04") else "")).strip(), "design_ref": c[5]},
                 "level_note": COMMON_TRUST + c[3],
                 "technique": c[4],
             })
